@@ -49,6 +49,14 @@ accuracy separations 2^100 .. 2^520 around the saturation threshold 2^500; mode 
 1, 2, 3 and 5 (more than the boundary cores carry); d = 2100 with the total exponent swept over the residues modulo d
 (`tshift`: truncate redistributes 2^(p/d) per core); core_stab on 1-D / 2-D / 4-D blocks.
 
+Input forms (form audit): `C16.forms.stab` re-runs mul_scalar.stab_value / norm.stab_value / orthogonalize.stab_large /
+accuracy.relative_distance / truncate.stab_large / stab_vs_plain.agree / rescale.exponent_only on tensors given as read-only
+cores, read-only non-contiguous views, a tuple of cores (any family / profile, d = 2 .. 500, thorough 2100), with cores of dtype
+int64 / int32 / int64 next to float64 (integer family at unit scale; accuracy only with a float first core - an integer first
+core makes act_two.sub raise, C01's DOUBTFUL clause), and float32 cores (integer family, per-core exponents |e| <= 40: mul_scalar /
+norm in float32 accuracy, because the unchanged library multiplies float32 cores in float32).  Positional / numpy-number call
+forms of these functions are exercised in C01 (mul_scalar, norm), C02 (truncate) and C04 (orthogonalize).
+
 Families: positive uniform cores, Gaussian, signed rank 1, integer, orthogonally conjugated block-diagonal cores;
 eleven per-core exponent profiles (zero / up / down / alt / front / back / rand / ramp, one = a single huge or tiny core,
 ends = first and last core, alt2 = alternating 2^200 / 2^-80) with totals up to 2^{+-30000};
@@ -67,7 +75,8 @@ BOUNDS = ('d in {2, 3, 10, 60, 500, 2100, 3000}, rank 1..3 and 5 (3000: rank <= 
           '11 exponent profiles, totals 2^-30000 .. 2^+30000 (|per-core exponent| <= 80 down / 200 up), pivots {0, 1, d/3, d/2, 2d/3, '
           'd-2, d-1, None}, truncate e 1e-12..0.3 / rank caps / is_eigh, accuracy separations 2^100..2^640, one-core rescalings 2^t, '
           'exact big-integer reference; orthogonalize with ONE core of 2^520..2^900 (first / last / middle, rank-1 bonds on either '
-          'side, neighbours 2^-300..2^10, d = 3..60 and 1200, stabilised and - where representable - plain: 542 quick cases)')
+          'side, neighbours 2^-300..2^10, d = 3..60 and 1200, stabilised and - where representable - plain: 542 quick cases); input forms '
+          'of the core list (read-only, views, tuple, int64 / int32 / mixed, float32) through 7 stabilised clauses, d = 2..500 (thorough 2100)')
 
 EPS = np.finfo(float).eps
 PROFILES = ('zero', 'up', 'down', 'alt', 'front', 'back', 'rand', 'ramp')
@@ -147,11 +156,16 @@ def combine(terms):
     return sum(c * (N << (Et - E)) for c, N, Et in terms), E
 
 
+EPS32 = float(np.finfo(np.float32).eps)
+# input form of the tensors built by make() and rounding unit of `agrees` - set (and restored) by `C16.forms.stab` only
+_FORM = {'form': None, 'eps': EPS}
+
+
 def agrees(q, d, rigorous):
     """Tolerance rule of the module docstring; `rigorous` is a callable returning the rigorous relative bound."""
     if not np.isfinite(q):
         return False
-    if abs(q - 1) <= 256 * d * EPS:
+    if abs(q - 1) <= 256 * d * _FORM['eps']:
         return True
     return abs(q - 1) <= rigorous()
 
@@ -243,6 +257,8 @@ def make(d, r, n, seed, fam, prof, s, exps=None, tshift=0, rr=None):
     for j in range(abs(int(tshift))):
         ex[j % d] += 1 if tshift > 0 else -1
     Y = [np.ldexp(G, e) for G, e in zip(Y, ex)]
+    if _FORM['form']:               # another INPUT FORM of the same tensor (ValueError if a value does not survive the dtype)
+        Y = gen.tt_form1(Y, _FORM['form'])
     return Y, ex
 
 
@@ -870,6 +886,26 @@ def extreme_cores(d, r, n, seed, fam, s):
 
 # ----------------------------------------------------------------------------- case list
 
+
+@clause('C16.forms.stab', funcs=('act_two.mul_scalar', 'act_one.norm', 'transformation.orthogonalize', 'act_two.accuracy',
+                                 'transformation.truncate', 'core.core_stab'))
+def forms_stab(target, form, params):
+    """The clauses mul_scalar.stab_value / norm.stab_value / orthogonalize.stab_large / accuracy.relative_distance /
+    truncate.stab_large / stab_vs_plain.agree / rescale.exponent_only (`target`) on tensors given in another INPUT FORM
+    (`gen.tt_form1`): read-only cores, read-only non-contiguous views, the core list as a tuple (any family / exponent
+    profile: the values are untouched), cores of integer dtype / integer next to float64 cores (integer family at unit
+    scale), float32 cores (integer family, per-core exponents within the float32 range; mul_scalar / norm only, compared in
+    float32 accuracy because the unchanged library multiplies float32 cores in float32).  The exact big-integer reference
+    is taken from the values that are passed."""
+    fn = {'mul_scalar': mul_scalar_stab, 'norm': norm_stab, 'orthogonalize': orth_stab, 'accuracy': accuracy_rel,
+          'truncate': truncate_stab, 'stab_vs_plain': stab_vs_plain, 'rescale': rescale_exponent_only}[target]
+    _FORM.update(form=form, eps=EPS32 if form in ('f32', 'mix_f32a', 'mix_f32b', 'tuple_f32_ro') else EPS)
+    try:
+        return fn(**params)
+    finally:
+        _FORM.update(form=None, eps=EPS)
+
+
 def _s_for(d):
     return {2: 80, 3: 80, 10: 80, 60: 80, 500: 60, 3000: 10}[d]
 
@@ -952,6 +988,53 @@ def cases(tier, seed):
         for s in (-200, -170, 520):
             for fam in ('pos', 'gauss'):
                 yield 'C16.stab.extreme_cores', dict(d=d, r=2, n=2, seed=1, fam=fam, s=s)
+    # ---- input forms of the core list: read-only / views / tuple (any family and profile), integer dtypes (integer family at
+    # unit scale; accuracy only with a float first core - an integer first core makes act_two.sub raise, see C01's DOUBTFUL
+    # clause C01.forms.int_first_core_inplace), float32 cores (integer family, exponents within the float32 range)
+    fj = 0
+    for d in (2, 3, 10, 60, 500) + ((2100,) if big else ()):
+        s0 = _s_for(d)
+        for fi, form in enumerate(('ro', 'ro_view', 'tuple')):
+            for pi, (fam, prof) in enumerate((('pos', 'up'), ('gauss', 'down'), ('rot', 'alt'), ('rank1s', 'rand'), ('int', 'ramp'), ('gauss', 'zero'))):
+                fj += 1
+                if not big and (fj + d) % 2 and d >= 60:
+                    continue
+                r = 1 if fam == 'rank1s' else 1 + (fj % 3)
+                base = dict(d=d, r=r, n=2 + (fj % 2 if d <= 60 else 0), seed=900 + pi, fam=fam, prof=prof, s=s0 if prof != 'zero' else 0)
+                yield 'C16.forms.stab', dict(target='norm', form=form, params=base)
+                yield 'C16.forms.stab', dict(target='mul_scalar', form=form, params=dict(base, prof2=PROFILES[(pi + 3) % 8], s2=-base['s'] if pi % 2 else base['s']))
+                yield 'C16.forms.stab', dict(target='orthogonalize', form=form, params=dict(base, kmode=('first', 'last', 'mid', 'none')[fj % 4]))
+                for rel in (('other', 'perturbed', 'copy', 'huge_vs_tiny', 'tiny_vs_huge', 'zero_ref') if (big or d <= 10) else
+                            (('other', 'copy', 'perturbed', 'huge_vs_tiny')[fj % 4],)):
+                    yield 'C16.forms.stab', dict(target='accuracy', form=form, params=dict(base, rel=rel))
+                if fam != 'int':
+                    e, inflate = ((1e-6, 'dup'), (1e-3, 'decay'), (1e-10, 'none'))[fj % 3]
+                    if not (inflate == 'decay' and r == 1):
+                        yield 'C16.forms.stab', dict(target='truncate', form=form, params=dict(base, e=e, inflate=inflate))
+                if d <= 60:
+                    yield 'C16.forms.stab', dict(target='rescale', form=form, params=dict(base, pos=('first', 'mid', 'last')[fj % 3], t=(1, -3, 17, -40, 100)[fj % 5],
+                                                                                          kmode=('first', 'last', 'mid')[(fj // 3) % 3]))
+        for fi, form in enumerate(('i64', 'i32', 'mix_fi', 'mix_if')):
+            if d > 60 and not big:
+                continue
+            for r in (1, 2, 3):
+                base = dict(d=d, r=r, n=2 + (r + fi) % 2, seed=920 + r, fam='int', prof='zero', s=0)
+                yield 'C16.forms.stab', dict(target='norm', form=form, params=base)
+                yield 'C16.forms.stab', dict(target='mul_scalar', form=form, params=dict(base, prof2='zero', s2=0))
+                yield 'C16.forms.stab', dict(target='orthogonalize', form=form, params=dict(base, kmode=('first', 'last', 'mid', 'none')[(r + fi) % 4]))
+                yield 'C16.forms.stab', dict(target='truncate', form=form, params=dict(base, e=1e-6, inflate='dup'))
+                if form == 'mix_fi':
+                    for rel in ('other', 'copy', 'perturbed'):
+                        yield 'C16.forms.stab', dict(target='accuracy', form=form, params=dict(base, rel=rel))
+                if d <= 10:
+                    yield 'C16.forms.stab', dict(target='stab_vs_plain', form=form, params=dict(base, e=(1e-10, 1e-4, 0.05)[r % 3]))
+        for fi, form in enumerate(('f32', 'mix_f32a', 'mix_f32b', 'tuple_f32_ro')):
+            for r in (1, 2):
+                for prof, s_ in (('up', 30), ('down', -30), ('alt', 40), ('zero', 0), ('rand', 12)):
+                    base = dict(d=d, r=r, n=2, seed=940 + r, fam='int', prof=prof, s=s_)
+                    yield 'C16.forms.stab', dict(target='norm', form=form, params=base)
+                    yield 'C16.forms.stab', dict(target='mul_scalar', form=form, params=dict(base, prof2=('down', 'up', 'alt', 'zero', 'rand')[(fi + r) % 5],
+                                                                                              s2=(-30, 30, 40, 0, 12)[(fi + r) % 5]))
     # ---- parameter / regime coverage (audit) ------------------------------------------------------------------
     NEWPROF = ('one', 'ends', 'alt2')
     # (a) scale distributions: one huge / tiny core, both ends, alternating huge / tiny - every stabilised routine
